@@ -96,7 +96,7 @@ class C10(P.Property):
                 steps.append({"do": k})
         knobs = dict(scheme=rng.choice(C10_SCHEMES),
                      net=rng.choice([dict(lo=0.001, hi=0.05), dict(lo=0.001, hi=0.05, seg=3), dict(lo=0.0005, hi=0.004), dict(lo=0.01, hi=0.3, tail=0.1, seg=2),
-                                     dict(lo=0.0, hi=0.0)]),  # the last: no latency at all -- events tie and only the loop's FIFO order decides
+                                     dict(lo=0.0, hi=0.0), dict(lo=0.0, hi=0.0, quantum=0.001), dict(lo=0.0005, hi=0.004, quantum=0.002)]),  # no latency / busy loop at all -- events tie and only the loop's FIFO order decides
                      skew=rng.choice([1.0, 1.0, 0.5, 2.0]), bufsize=rng.choice([8192, 8192, 16]), forced_gap=rng.choice([0, 0.5, 1.5]),
                      decoy=rng.random() < 0.5, gc_every=rng.choice([0, 0, 1, 3]),
                      digest=rng.choice(["unique", "unique", "same", "none"]), sid_style=rng.choice(["hex", "hex", "dotted", "long"]))
